@@ -37,3 +37,72 @@ package skiplist
 //@   invariant i == 0 - 1 ==> (curr.next[0] == nil || cmp(curr.next[0].Entry.Key, key) >= 0)
 //@ loop 1:
 //@   invariant 0 <= i && i < s.maxLevel && i < len(curr.next) && slIn(s, curr) && (curr != s.head ==> cmp(curr.Entry.Key, key) < 0)
+//
+//@ func (*skiplist.SkipList).LowerBound -> e, ok
+//@ props C17 C01
+//@ requires SL(s) && wf(key)
+//@ assigns SLW
+//@ ensures ok ==> (SLMem[ref(s)][SLW] && SLW != ref(s.head) && cmp(cast(P_skiplist_Element, SLW).Entry.Key, key) >= 0 && e == cast(P_skiplist_Element, SLW).Entry)
+//@ ensures ok ==> forall(P_skiplist_Element(y), (slIn(s, y) && y != s.head && cmp(y.Entry.Key, key) >= 0) ==> cmp(e.Key, y.Entry.Key) <= 0, trig(slIn(s, y)))
+//@ ensures !ok ==> forall(P_skiplist_Element(y), (slIn(s, y) && y != s.head) ==> cmp(y.Entry.Key, key) < 0, trig(slIn(s, y)))
+//@ at_exit exit: ghost SLW = ite(ok, ref(curr), SLW)
+//@ loop 0:
+//@   invariant 0 - 1 <= i && i < s.maxLevel && i + 1 <= len(curr.next) && slIn(s, curr) && (curr != s.head ==> cmp(curr.Entry.Key, key) < 0)
+//@   invariant i == 0 - 1 ==> (curr.next[0] == nil || cmp(curr.next[0].Entry.Key, key) >= 0)
+//@ loop 1:
+//@   invariant 0 <= i && i < s.maxLevel && i < len(curr.next) && slIn(s, curr) && (curr != s.head ==> cmp(curr.Entry.Key, key) < 0)
+//
+// All: every member exactly once, in order. SLSrc[j] = the node the j-th result came from,
+// SLIdx[node] = its index in the result.
+//@ ghost SLSrc (Array Int Int)
+//@ ghost SLIdx (Array Int Int)
+//@ define slFrom(s, r, n, j) = SLMem[ref(s)][SLSrc[j]] && SLSrc[j] != ref(s.head) && SLSrc[j] != 0 && r[j] == cast(P_skiplist_Element, SLSrc[j]).Entry
+//@ func (*skiplist.SkipList).All -> r
+//@ props C17 C01
+//@ requires SL(s)
+//@ assigns SLSrc, SLIdx
+//@ ensures all(j, 0, len(r), slFrom(s, r, len(r), j))
+//@ ensures forall(Int(a), Int(b), (0 <= a && a < b && b < len(r)) ==> cmp(r[a].Key, r[b].Key) < 0)
+//@ ensures forall(P_skiplist_Element(y), (slIn(s, y) && y != s.head) ==> (0 <= SLIdx[ref(y)] && SLIdx[ref(y)] < len(r) && SLSrc[SLIdx[ref(y)]] == ref(y)), trig(slIn(s, y)))
+//@ ensures cap(r) == 0 || arrid(r) >= old(alloc)
+//@ after_call append#0: ghost SLSrc = store(SLSrc, len(result) - 1, ref(curr))
+//@ after_call append#0: ghost SLIdx = store(SLIdx, ref(curr), len(result) - 1)
+//@ loop 0:
+//@   invariant (curr == nil || (slIn(s, curr) && curr != s.head)) && (cap(all) == 0 || arrid(all) >= old(alloc))
+//@   invariant all(j, 0, len(all), slFrom(s, all, len(all), j) && (curr != nil ==> cmp(all[j].Key, curr.Entry.Key) < 0))
+//@   invariant forall(Int(a), Int(b), (0 <= a && a < b && b < len(all)) ==> cmp(all[a].Key, all[b].Key) < 0)
+//@   invariant forall(P_skiplist_Element(y), (slIn(s, y) && y != s.head) ==> ((curr != nil && cmp(y.Entry.Key, curr.Entry.Key) >= 0) || (0 <= SLIdx[ref(y)] && SLIdx[ref(y)] < len(all) && SLSrc[SLIdx[ref(y)]] == ref(y))), trig(slIn(s, y)))
+//
+// Scan: the members in [start, end), in order.
+//@ func (*skiplist.SkipList).Scan -> r
+//@ props C17 C01
+//@ requires SL(s) && wf(start) && wf(end)
+//@ assigns SLSrc, SLIdx
+//@ ensures all(j, 0, len(r), slFrom(s, r, len(r), j) && cmp(r[j].Key, start) >= 0 && cmp(r[j].Key, end) < 0)
+//@ ensures forall(Int(a), Int(b), (0 <= a && a < b && b < len(r)) ==> cmp(r[a].Key, r[b].Key) < 0)
+//@ ensures forall(P_skiplist_Element(y), (slIn(s, y) && y != s.head && cmp(y.Entry.Key, start) >= 0 && cmp(y.Entry.Key, end) < 0) ==> (0 <= SLIdx[ref(y)] && SLIdx[ref(y)] < len(r) && SLSrc[SLIdx[ref(y)]] == ref(y)), trig(slIn(s, y)))
+//@ ensures cap(r) == 0 || arrid(r) >= old(alloc)
+//@ after_call append#0: ghost SLSrc = store(SLSrc, len(result) - 1, ref(curr))
+//@ after_call append#0: ghost SLIdx = store(SLIdx, ref(curr), len(result) - 1)
+//@ loop 0:
+//@   invariant 0 - 1 <= i && i < s.maxLevel && i + 1 <= len(curr.next) && slIn(s, curr) && (curr != s.head ==> cmp(curr.Entry.Key, start) < 0) && res == nil
+//@   invariant i == 0 - 1 ==> (curr.next[0] == nil || cmp(curr.next[0].Entry.Key, start) >= 0)
+//@ loop 1:
+//@   invariant 0 <= i && i < s.maxLevel && i < len(curr.next) && slIn(s, curr) && (curr != s.head ==> cmp(curr.Entry.Key, start) < 0) && res == nil
+//@ loop 2:
+//@   invariant (curr == nil || (slIn(s, curr) && curr != s.head && cmp(curr.Entry.Key, start) >= 0)) && (cap(res) == 0 || arrid(res) >= old(alloc))
+//@   invariant all(j, 0, len(res), slFrom(s, res, len(res), j) && cmp(res[j].Key, start) >= 0 && cmp(res[j].Key, end) < 0 && (curr != nil ==> cmp(res[j].Key, curr.Entry.Key) < 0))
+//@   invariant forall(Int(a), Int(b), (0 <= a && a < b && b < len(res)) ==> cmp(res[a].Key, res[b].Key) < 0)
+//@   invariant forall(P_skiplist_Element(y), (slIn(s, y) && y != s.head && cmp(y.Entry.Key, start) >= 0) ==> ((curr != nil && cmp(y.Entry.Key, curr.Entry.Key) >= 0) || (0 <= SLIdx[ref(y)] && SLIdx[ref(y)] < len(res) && SLSrc[SLIdx[ref(y)]] == ref(y))), trig(slIn(s, y)))
+//
+//@ func (*skiplist.SkipList).Size -> n
+//@ props C17
+//@ requires s != nil
+//@ ensures n == s.size
+//
+//@ func (*skiplist.SkipList).randomLevel -> r
+//@ props C17
+//@ requires s != nil && s.maxLevel >= 1
+//@ ensures 1 <= r && r <= s.maxLevel
+//@ loop 0:
+//@   invariant 1 <= level && level <= s.maxLevel
